@@ -42,11 +42,16 @@ theorem spec_skipP (k : Kind) (hk : k ≠ .eof) (hk' : k ≠ .invalid) (hv : k.v
     · exact .inl ⟨hb, by rw [h1.σ]; exact h2, [t], h1, by simp [ofToken_punct h2 h3 hv]⟩
     · exact .inr h
 
-theorem spec_parseName : Spec parseName (Eats fun n used => tk used = [tName n]) := by
+/-- `parseName`, exposing the token -/
+theorem spec_parseName' : Spec parseName (Eats fun n used => ∃ t, used = [t] ∧ t.kind = .name ∧ t.value = n ∧ TokOK t) := by
   unfold parseName
   refine (Spec.bind (spec_expect .name (by decide) (by decide)) fun t => Spec.pure t.value).mono ?_
   rintro n a a'' _ ⟨t, a', ⟨u, h1, rfl, h4, h5⟩, rfl, rfl⟩
-  exact ⟨_, h1, by simp [ofToken_name h4]⟩
+  exact ⟨_, h1, t, rfl, h4, rfl, h5⟩
+
+theorem spec_parseName : Spec parseName (Eats fun n used => tk used = [tName n]) :=
+  spec_parseName'.mono fun _ _ _ _ e => e.mono fun n u ⟨t, h1, h2, h3, _⟩ => by
+    subst h1 h3; simp [ofToken_name h2]
 
 theorem spec_parseVariable : Spec parseVariable (Eats fun n used => tk used = [tP .dollar, tName n]) := by
   unfold parseVariable
@@ -331,5 +336,179 @@ theorem spec_parseVariableDefinitions (n : Nat) : Spec (parseVariableDefinitions
   rintro vs a a' _ ⟨hb, hne⟩
   obtain ⟨u, h1, h2, h3, _⟩ := bracketed_some rfl rfl hb hne
   exact ⟨u, h1, h2, h3⟩
+
+/-! ### selections -/
+
+theorem _root_.Gql.Grammar.Derives.cast {g : Grammar NT} {s : Sym NT} {t t' o o' : List Tok} (h : Derives g s t o) (ht : t = t') (ho : o = o') :
+    Derives g s t' o' := ht ▸ ho ▸ h
+
+/-- a selection: the consumed tokens derive `Selection` with the print of the tree as canonical form -/
+def PSel (s : Selection) (u : List Token) : Prop :=
+  Derives gql (.nt .selection) (tk u) (printSelection s) ∧ WFSelection s
+
+/-- a (non-empty) selection set -/
+def PSelSet (ss : Selections) (u : List Token) : Prop :=
+  ss ≠ .nil ∧ WFSelections ss ∧ Derives gql (.nt .selectionSet) (tk u) (printSelectionSet ss)
+
+theorem many_sel {xs : List Selection} {mid : List Token} (h : Many PSel xs mid) :
+    Derives gql (.star (.nt .selection)) (tk mid) (printSelections (Selections.ofList xs)) ∧
+      WFSelections (Selections.ofList xs) := by
+  induction h with
+  | nil => exact ⟨Derives.starNil, trivial⟩
+  | @cons x xs u us hx _ ih =>
+    refine ⟨?_, ?_⟩
+    · simp only [tk_append, Selections.ofList, printSelections]
+      exact Derives.starCons hx.1 ih.1
+    · simp only [Selections.ofList, WFSelections]
+      exact ⟨hx.2, ih.2⟩
+
+theorem selSet_of_bracket {xs : List Selection} {a a' : AS} (hb : Bracketed PSel .braceL .braceR xs a a')
+    (hne : a.σ.head.kind = .braceL → xs ≠ []) (hk : a.σ.head.kind = .braceL) :
+    Eats PSelSet (Selections.ofList xs) a a' := by
+  rcases hb with ⟨_, hk', _⟩ | ⟨_, u, hu, t1, mid, t2, rfl, k1, k2, o1, o2, hm⟩
+  · exact absurd hk hk'
+  · have hxs := hne hk
+    cases hm with
+    | nil => exact absurd rfl hxs
+    | @cons x xs u us hx hrest =>
+      obtain ⟨m1, m2⟩ := many_sel hrest
+      refine ⟨_, hu, by simp [Selections.ofList], by simp only [Selections.ofList, WFSelections]; exact ⟨hx.2, m2⟩, ?_⟩
+      have hp := Derives.plus hx.1 m1
+      have := Derives.nt (g := gql) (n := NT.selectionSet)
+        (Derives.seq (L.kind .braceL) (Derives.seq hp (L.kind .braceR)))
+      refine this.cast ?_ ?_
+      · simp [ofToken_punct k1 o1 rfl, ofToken_punct k2 o2 rfl]
+      · simp [printSelectionSet, Selections.ofList, printSelections]
+
+theorem spec_parseOptionalSelectionSetWith {sel : Prog Selection} (hsel : Spec sel (Eats PSel)) (n : Nat) :
+    Spec (parseOptionalSelectionSetWith sel n) (fun ss a a' => a.σ.head.kind = .braceL → Eats PSelSet ss a a') := by
+  unfold parseOptionalSelectionSetWith
+  refine (Spec.bind (spec_pSome .braceL .braceR (by decide) (by decide) (by decide) (by decide) n hsel)
+    fun xs => Spec.pure (Selections.ofList xs)).mono ?_
+  rintro ss a a'' _ ⟨xs, a1, ⟨hb, hne⟩, rfl, rfl⟩ hk
+  exact selSet_of_bracket hb hne hk
+
+theorem spec_parseRequiredSelectionSetWith {sel : Prog Selection} (hsel : Spec sel (Eats PSel)) (n : Nat) :
+    Spec (parseRequiredSelectionSetWith sel n) (Eats PSelSet) := by
+  unfold parseRequiredSelectionSetWith
+  refine (Spec.bind spec_peek fun t => Spec.ite
+    (fun _ => Spec.bind spec_peek fun _ => Spec.bind spec_peek fun _ =>
+        Spec.of_dead_bind (R := fun _ _ _ => False) (failAt_dead _ _))
+    (fun _ => Spec.bind (spec_pSome .braceL .braceR (by decide) (by decide) (by decide) (by decide) n hsel)
+      fun xs => Spec.pure (Selections.ofList xs))).mono ?_
+  rintro ss a a'' _ ⟨t, a1, ⟨rfl, rfl⟩, ⟨_, _, _, _, _, _, _, hf⟩ | ⟨hk, xs, a2, ⟨hb, hne⟩, rfl, rfl⟩⟩
+  · exact hf.elim
+  · simp only [ne_eq, Decidable.not_not] at hk
+    obtain ⟨u, hu, p⟩ := selSet_of_bracket hb hne hk
+    exact ⟨u, (Ate.peeked a).trans hu, p⟩
+
+/-- the canonical form of `SelectionSet?` in a field -/
+def selOut : Selections → List Tok
+  | .nil => []
+  | .cons s rest => tP .braceL :: printSelections (.cons s rest) ++ [tP .braceR]
+
+theorem selOut_of_ne {ss : Selections} (h : ss ≠ .nil) : selOut ss = printSelectionSet ss := by
+  cases ss with
+  | nil => exact absurd rfl h
+  | cons s rest => rfl
+
+theorem head_selOut (ss : Selections) : ∀ t, (selOut ss).head? = some t → t.kind ≠ .colon := by
+  intro t h
+  cases ss with
+  | nil => simp [selOut] at h
+  | cons s rest => simp [selOut] at h; subst h; simp [tP]
+
+theorem dropSelfAlias_self (a : Name) (rest : List Tok) :
+    dropSelfAlias (tName a :: tP .colon :: tName a :: rest) = tName a :: rest := by
+  simp [dropSelfAlias, tName, tP]
+
+theorem derives_field (al nm : Name) (args : List Argument) (ds : List Directive) (ss : Selections) (pos : Pos)
+    (colon : Bool) (hcol : colon = false → al = nm) {tsSel : List Tok}
+    (hsel : Derives gql (.opt (.nt .selectionSet)) tsSel (selOut ss)) :
+    Derives gql (.nt .selection)
+      ((if colon then [tName al, tP .colon] else []) ++ tName nm :: (printArguments args ++ (printDirectives ds ++ tsSel)))
+      (printSelection (.field al nm args ds ss pos)) := by
+  have halias : Derives gql (.opt (.nt .alias)) (if colon then [tName al, tP .colon] else [])
+      (if colon then [tName al, tP .colon] else []) := by
+    cases colon
+    · exact Derives.optNone
+    · exact Derives.optSome (L.nt (L.cons (L.name al) (L.kind .colon)))
+  have body := Derives.seq halias (Derives.seq (L.name nm) (Derives.seq (L_optArguments false args (by simp))
+    (Derives.seq (L_optDirectives false ds (by simp)) hsel)))
+  have hf : Derives gql (.nt .field) _ _ := Derives.nt (n := NT.field) (Derives.canon (f := dropSelfAlias) body)
+  refine (Derives.nt (n := NT.selection) (Derives.altL hf)).cast (by simp) ?_
+  have hsame : printSelection (.field al nm args ds ss pos) =
+      (if al = nm then [] else [tName al, tP .colon]) ++ tName nm :: (printArguments args ++ (printDirectives ds ++ selOut ss)) := by
+    cases ss <;> simp [printSelection, selOut]
+  rw [hsame]
+  cases colon with
+  | false =>
+    have := hcol rfl
+    subst this
+    simp only [Bool.false_eq_true, if_false, List.nil_append, if_true, List.singleton_append]
+    refine dropSelfAlias_plain _ _ (head_append (fun t h => ?_) (head_append (fun t h => ?_) (head_selOut ss)))
+    · rw [head_printArguments _ t h]; simp [tP]
+    · rw [head_printDirectives _ t h]; simp [tP]
+  | true =>
+    by_cases he : al = nm
+    · subst he
+      simpa using dropSelfAlias_self al _
+    · simpa [he] using dropSelfAlias_alias al nm he _
+
+/-- the part of `parseField` after the name -/
+def fieldTail (sel : Prog Selection) (n : Nat) (pos : Pos) (alias name : Name) : Prog Selection := do
+  let args ← parseArguments n false
+  let dirs ← parseDirectives n false
+  let t ← peek
+  let ss ← do
+    if t.kind = .braceL then parseOptionalSelectionSetWith sel n else pure Selections.nil
+  pure (Selection.field alias name args dirs ss pos)
+
+theorem parseFieldWith_eq (sel : Prog Selection) (n : Nat) :
+    parseFieldWith sel n = (do
+      let pos ← peekPos
+      let alias ← parseName
+      let b ← skip .colon
+      if b then do
+        let name ← parseName
+        fieldTail sel n pos alias name
+      else fieldTail sel n pos alias alias) := rfl
+
+theorem spec_fieldTail {sel : Prog Selection} (hsel : Spec sel (Eats PSel)) (n : Nat) (pos : Pos) (al nm : Name) :
+    Spec (fieldTail sel n pos al nm) (Eats fun s u => ∃ args ds ss tsSel, s = .field al nm args ds ss pos ∧
+      tk u = printArguments args ++ (printDirectives ds ++ tsSel) ∧
+      Derives gql (.opt (.nt .selectionSet)) tsSel (selOut ss) ∧ WFSelections ss) := by
+  unfold fieldTail
+  refine (Spec.bind (spec_parseArguments n false) fun args => Spec.bind (spec_parseDirectives n false) fun dirs =>
+    Spec.bind spec_peek fun t => Spec.ite
+      (fun _ => Spec.bind (spec_parseOptionalSelectionSetWith hsel n) fun ss => Spec.pure _)
+      (fun _ => Spec.bind (Spec.pure Selections.nil) fun ss => Spec.pure _)).mono ?_
+  rintro s a a'' _ ⟨args, a1, ⟨u1, h1, p1⟩, dirs, a2, ⟨u2, h2, p2⟩, t, a3, ⟨rfl, rfl⟩,
+    ⟨hk, ss, a4, hss, rfl, rfl⟩ | ⟨hk, ss, a4, ⟨rfl, rfl⟩, rfl, rfl⟩⟩
+  · obtain ⟨u3, h3, q1, q2, q3⟩ := hss hk
+    refine ⟨_, h1.trans (h2.trans ((Ate.peeked a2).trans h3)), args, dirs, ss, tk u3, rfl, by simp [p1.1, p2.1], ?_, q2⟩
+    rw [selOut_of_ne q1]
+    exact Derives.optSome q3
+  · exact ⟨_, h1.trans (h2.trans (Ate.peeked a2)), args, dirs, .nil, [], rfl, by simp [p1.1, p2.1],
+      Derives.optNone, trivial⟩
+
+theorem spec_parseFieldWith {sel : Prog Selection} (hsel : Spec sel (Eats PSel)) (n : Nat) :
+    Spec (parseFieldWith sel n) (Eats PSel) := by
+  rw [parseFieldWith_eq]
+  refine (Spec.bind spec_peekPos fun pos => Spec.bind spec_parseName fun al =>
+    Spec.bind (spec_skipP .colon (by decide) (by decide) rfl) fun b => Spec.ite
+      (fun _ => Spec.bind spec_parseName fun nm => spec_fieldTail hsel n pos al nm)
+      (fun _ => spec_fieldTail hsel n pos al al)).mono ?_
+  rintro s a a'' _ ⟨pos, a1, ⟨rfl, _⟩, al, a2, ⟨u1, h1, p1⟩, b, a3, hs,
+    ⟨hb, nm, a4, ⟨u2, h2, p2⟩, u3, h3, args, ds, ss, tsSel, rfl, q1, q2, q3⟩ |
+    ⟨hb, u3, h3, args, ds, ss, tsSel, rfl, q1, q2, q3⟩⟩
+  · rcases hs with ⟨_, _, u0, h0, p0⟩ | ⟨rfl, _⟩
+    · refine ⟨_, (Ate.peeked a).trans (h1.trans (h0.trans (h2.trans h3))), ?_, by simpa [WFSelection] using q3⟩
+      exact (derives_field al nm args ds ss pos true (by simp) q2).cast (by simp [p1, p0, p2, q1]) rfl
+    · simp at hb
+  · rcases hs with ⟨rfl, _⟩ | ⟨_, _, rfl⟩
+    · simp at hb
+    · refine ⟨_, (Ate.peeked a).trans (h1.trans ((Ate.peeked a2).trans h3)), ?_, by simpa [WFSelection] using q3⟩
+      exact (derives_field al al args ds ss pos false (fun _ => rfl) q2).cast (by simp [p1, q1]) rfl
 
 end Gql.Parser
